@@ -16,21 +16,38 @@ def retryable : Attempt → Bool
   | .failAfter _ _ true => true
   | _ => false
 
+/-- Which behaviour the model has for each finding: the committed switches of `Olla.Model.Counters`, which
+    `VERIF_C19_FIXED=error-status,engine-total,translator-flag,client-abort` overrides for trying a patch. -/
+structure Variants where
+  engineTotals   : Variant := Olla.Model.Counters.engineTotals
+  errorStatus    : Variant := Olla.Model.Counters.errorStatus
+  clientAbort    : Variant := Olla.Model.Counters.clientAbort
+  translatorFlag : Variant := Olla.Model.Counters.translatorFlag
+
+def variantsFromEnv : IO Variants := do
+  let v := (← IO.getEnv "VERIF_C19_FIXED").getD ""
+  let has := fun (k : String) => (v.splitOn ",").contains k
+  let d : Variants := {}
+  return { engineTotals := if has "engine-total" then .fixed else d.engineTotals,
+           errorStatus := if has "error-status" then .fixed else d.errorStatus,
+           clientAbort := if has "client-abort" then .fixed else d.clientAbort,
+           translatorFlag := if has "translator-flag" then .fixed else d.translatorFlag }
+
 /-- The attempt a scripted backend produces; the client-abort scenario's stalled stream ends with
     `context.Canceled`, which the engines record as a success (variant `clientAbort`). -/
-def outcome19 (eps : List EpSpec) (i : Nat) : Attempt :=
+def outcome19 (vs : Variants) (eps : List EpSpec) (i : Nat) : Attempt :=
   match eps.find? (·.idx == i) with
   | none => .failBefore false
   | some e =>
     if e.kind == "body-stall" then
-      (match clientAbort with | .pinned => .ok e.resp | .fixed => .failAfter e.resp e.k false)
+      (match vs.clientAbort with | .pinned => .ok e.resp | .fixed => .failAfter e.resp e.k false)
     else outcomeOf eps i
 
 /-- Every run of one request the model allows: candidate snapshot (in a racy scenario an endpoint that
     fails retryably may already have been marked offline by another request) x selection order. -/
-def possibleRuns (eps : List EpSpec) (balancer : String) (racy breakerMayTrip : Bool) : List (List Ev × Result) :=
+def possibleRuns (vs : Variants) (eps : List EpSpec) (balancer : String) (racy breakerMayTrip : Bool) : List (List Ev × Result) :=
   let cands := candidates eps
-  let out0 := outcome19 eps
+  let out0 := outcome19 vs eps
   let removable := if racy then cands.filter (fun i => retryable (out0 i)) else []
   let sets := (sublists removable).map (fun rm => cands.filter (fun i => !rm.contains i))
   -- olla engine under concurrent load: an endpoint whose round trips fail trips its breaker after a few
@@ -55,14 +72,14 @@ def translatorEnd (stream : Bool) (run : List Ev × Result) : TranslatorEnd :=
   | _ => if stream then .proxyErrorAfterStart else .proxyErrorBeforeStart
 
 /-- Contribution of one run to [collector ok, failed, engine total, ok, failed, translator ok, failed] ++ per endpoint [ok, failed]. -/
-def contribution (eps : List EpSpec) (route : String) (run : List Ev × Result) : List Int :=
-  let tr := requestTrace errorStatus run.1
+def contribution (vs : Variants) (eps : List EpSpec) (route : String) (run : List Ev × Result) : List Int :=
+  let tr := requestTrace vs.errorStatus run.1
   let noCand : Nat := match run.2 with | .noEndpoints => 1 | _ => 0
   let isTr := route != "proxy"
   -- the translator handler answers 404 itself when there is no candidate: the engine is not entered
   let entered : Nat := if isTr && noCand == 1 then 0 else 1
-  let eng := engine engineTotals entered (if isTr then 0 else noCand) tr
-  let t : Stats := if isTr then translator translatorFlag [translatorEnd (route == "anthropic-stream") (tr, run.2)] {} else {}
+  let eng := engine vs.engineTotals entered (if isTr then 0 else noCand) tr
+  let t : Stats := if isTr then translator vs.translatorFlag [translatorEnd (route == "anthropic-stream") (tr, run.2)] {} else {}
   [(countSucc tr : Int), countFail tr, eng.total, eng.ok, eng.failed, t.ok, t.failed] ++
     eps.flatMap (fun e => [(succOn e.idx tr : Int), (failOn e.idx tr : Int)])
 
@@ -81,7 +98,7 @@ def stats3 (j : Json) : Int × Int × Int :=
   let a := jarr j
   (jint (a.getD 0 Json.null), jint (a.getD 1 Json.null), jint (a.getD 2 Json.null))
 
-def handle (j : Json) : IO Unit := do
+def handle (vs : Variants) (j : Json) : IO Unit := do
   let case := jnat (jget j "case")
   let sc := jget j "scenario"
   let impl := jget j "impl"
@@ -140,21 +157,25 @@ def handle (j : Json) : IO Unit := do
       | none => false)).length
   let aborted : Int := (reqs.filter (fun r => jbool (jget r "aborted"))).length
   let okResponses : Int := (saw.filter isSuccessResponse).length
+  -- streaming translation: the client was answered 200 + a well-formed (empty) message although no backend served it (the C05 finding)
+  let answered200 : Int := ((reqs.zip saw).filter (fun (r, c) => isSuccessResponse c && route == "anthropic-stream" &&
+      (match (contactedOf r).getLast? with | some b => kindOf eps b != "ok" | none => true))).length
   let spec := pQuiet && midOk && pCollector && pTranslator && pEngine && pOnce && pSucc && pNoErr && pTrSucc
   let sig := if !pQuiet then "gauge-not-zero-at-quiescence" else if !midOk then "gauge-differs-from-in-flight"
     else if !pCollector then "collector-not-conserved" else if !pTranslator then "translator-not-conserved"
     else if !pOnce then "attempt-not-recorded-exactly-once"
     else if (!pSucc || !pNoErr) && aborted > 0 && gO == okResponses + errRelayed + aborted then "client-abort-recorded-as-success"
     else if (!pSucc || !pNoErr) && errRelayed > 0 && gO == okResponses + errRelayed then "error-status-recorded-as-success"
+    else if (!pSucc || !pNoErr) && answered200 > 0 && gO + answered200 == okResponses + errRelayed then "failed-stream-answered-200-by-translator"
     else if !pSucc || !pNoErr then "successes-differ-from-success-responses"
     else if !pTrSucc && !noErrorAsSuccess tO saw then "translator-error-status-recorded-as-success"
     else if !pTrSucc then "translator-failed-stream-recorded-as-success"
     else if !pEngine then "engine-total-counts-requests-not-attempts" else ""
   -- ---------------------------------------------------------------- the model: per-request runs, summed
-  let runs := (possibleRuns eps balancer racy (jstr (jget sc "engine") == "olla" && clients > 1)).eraseDups
+  let runs := (possibleRuns vs eps balancer racy (jstr (jget sc "engine") == "olla" && clients > 1)).eraseDups
   let perReq : List (List (List Ev × Result)) := reqs.map (fun r => runs.filter (fun run => seenList eps run.1 == contactedOf r))
   let zero : List Int := (List.replicate (7 + 2 * eps.length) 0)
-  let sums := sumSets (perReq.map (fun rs => (rs.map (contribution eps route)).eraseDups)) zero
+  let sums := sumSets (perReq.map (fun rs => (rs.map (contribution vs eps route)).eraseDups)) zero
   let implVec : List Int := [gO, gF, eT, eO, eF, tO, tF] ++ perEp.flatMap (fun (_, o, f) => [o, f])
   let explained := perReq.all (fun rs => !rs.isEmpty)
   let chosen : List (List Ev) := perReq.map (fun rs => (rs.head?.map (·.1)).getD [])
@@ -173,6 +194,8 @@ def handle (j : Json) : IO Unit := do
       s!", collector [total,ok,failed] [{gT},{gO},{gF}], engine [{eT},{eO},{eF}], per endpoint {perEp.map (fun (t, o, f) => [t, o, f])}, translator [{tT},{tO},{tF}]; clients saw (status, in full) {(saw.map (fun c => (c.status, c.inFull))).eraseDups}; success responses {(saw.filter isSuccessResponse).length}; model totals {sums.take 4} gauges {mGaugesFinal} mid {mMid}")
     (toJson (sums.take 4))
 
-def main : IO Unit := do forLines (← IO.getStdin) handle
+def main : IO Unit := do
+  let vs ← variantsFromEnv
+  forLines (← IO.getStdin) (handle vs)
 
 end Olla.Driver.C19
